@@ -58,7 +58,8 @@ def gen_case(rng, tier, index):
     cases = []
     for _ in range(BATCH[tier]):
         g = gen_rewrite.Gen(rng, tier, shared_blocks=True, fnscope_p=0.9,
-                            anywhere_p=0.8)
+                            anywhere_p=0.8, popular_callee_p=0.5,
+                            themed_p=0.5)
         g.module()
         g.edits()
         regs = {"x64": ["rax", "rbx", "rcx", "rdx", "rsi", "r8", "r12"],
